@@ -26,7 +26,7 @@ NOT_APPLICABLE = {}
 
 # checks whose monitor has been calibrated silent on the unchanged (repaired) tree and validated
 # against mutants; only these are listed under MANIFEST.checks
-CLAIMED = ["C01", "C02", "C03", "C04", "C05", "C07", "C08", "C09", "C10", "C11", "C12", "C13", "C14", "C15", "C16", "C17", "C18", "C19", "C20"]
+CLAIMED = ["C01", "C02", "C03", "C04", "C05", "C06", "C07", "C08", "C09", "C10", "C11", "C12", "C13", "C14", "C15", "C16", "C17", "C18", "C19", "C20"]
 
 CHECKS = {}
 for _p in sorted(glob.glob(os.path.join(_HERE, "checks", "C*.py"))):
